@@ -193,13 +193,12 @@ static int prepare_acf_packet(uint8_t* acf_pdu,
 
     // Set required CAN Flags
     can_id = (can_variant == AVTP_CAN_FD) ? frame.fd.can_id : frame.cc.can_id;
-    Avtp_Can_SetField(pdu, AVTP_CAN_FIELD_RTR, can_id & CAN_RTR_FLAG);
-    Avtp_Can_SetField(pdu, AVTP_CAN_FIELD_EFF, can_id & CAN_EFF_FLAG);
+    Avtp_Can_SetField(pdu, AVTP_CAN_FIELD_RTR, (can_id & CAN_RTR_FLAG) ? 1U : 0U);
 
     if (can_variant == AVTP_CAN_FD) {
-        Avtp_Can_SetField(pdu, AVTP_CAN_FIELD_BRS, frame.fd.flags & CANFD_BRS);
-        Avtp_Can_SetField(pdu, AVTP_CAN_FIELD_FDF, frame.fd.flags & CANFD_FDF);
-        Avtp_Can_SetField(pdu, AVTP_CAN_FIELD_ESI, frame.fd.flags & CANFD_ESI);
+        Avtp_Can_SetField(pdu, AVTP_CAN_FIELD_BRS, (frame.fd.flags & CANFD_BRS) ? 1U : 0U);
+        Avtp_Can_SetField(pdu, AVTP_CAN_FIELD_FDF, (frame.fd.flags & CANFD_FDF) ? 1U : 0U);
+        Avtp_Can_SetField(pdu, AVTP_CAN_FIELD_ESI, (frame.fd.flags & CANFD_ESI) ? 1U : 0U);
     }
 
     // Copy payload to ACF CAN PDU
@@ -209,6 +208,10 @@ static int prepare_acf_packet(uint8_t* acf_pdu,
     else
         Avtp_Can_CreateAcfMessage(pdu, frame.cc.can_id & CAN_EFF_MASK, frame.cc.data,
                                          frame.cc.len, can_variant);
+
+    // An extended frame may carry an identifier below 0x800: take the EFF bit
+    // from the frame instead of the identifier value
+    Avtp_Can_SetField(pdu, AVTP_CAN_FIELD_EFF, (can_id & CAN_EFF_FLAG) ? 1U : 0U);
 
     return Avtp_Can_GetAcfMsgLength(pdu)*4;
 }
